@@ -332,7 +332,7 @@ def _setstate_chain(repo, cq):
 
 def r1_buffers(ck, repo, nf):
     mod = repo.module(MODQ)
-    classes = [f"{MODQ}.{n}" for n, d in mod.defs.items() if isinstance(d, ast.ClassDef)]
+    classes = [f"{MODQ}.{n}" for n, d, _m2 in repo.module_members(MODQ) if isinstance(d, ast.ClassDef)]
     n_pairs = [0]
 
     def one_class(cq):
